@@ -82,22 +82,22 @@ Fixpoint pb_eqb (a b : pb) {struct a} : bool :=
   end.
 
 (* ---------------------------------------------------------------------------------------------- *)
-(* proto/convert.go:88 ToPBData: type switch Boolean, Float, Integer, StringValue, UndefValue, Array, Hash,
+(* proto/convert.go:84 ToPBData: type switch Boolean, Float, Integer, StringValue, UndefValue, Array, Hash,
    Binary, default *)
 Fixpoint to_pb (v : value) : pb :=
   match v with
-  | VBool b => PbBool b                                              (* :90 *)
-  | VFloat f => PbFloat f                                            (* :92 *)
-  | VInt z => PbInt z                                                (* :94 *)
-  | VStr s => PbStr s                                                (* :96 *)
-  | VUndef => PbUndef                                                (* :98 *)
-  | VArr l => PbArr (map to_pb l)                                    (* :100 *)
-  | VHash es => PbHash (map (fun kv => (to_pb (fst kv), to_pb (snd kv))) es)    (* :106 *)
-  | VBin b => PbBin b                                                (* :113 *)
-  | VOther => PbUndef                                                (* :115 default *)
+  | VBool b => PbBool b                                              (* :86 *)
+  | VFloat f => PbFloat f                                            (* :88 *)
+  | VInt z => PbInt z                                                (* :90 *)
+  | VStr s => PbStr s                                                (* :92 *)
+  | VUndef => PbUndef                                                (* :94 *)
+  | VArr l => PbArr (map to_pb l)                                    (* :96 *)
+  | VHash es => PbHash (map (fun kv => (to_pb (fst kv), to_pb (snd kv))) es)    (* :102 *)
+  | VBin b => PbBin b                                                (* :109 *)
+  | VOther => PbUndef                                                (* :111 default *)
   end.
 
-(* the same for the scalar handed to protoConsumer.Add (:69  pc.add(ToPBData(v))) *)
+(* the same for the scalar handed to protoConsumer.Add (:64  pc.add(ToPBData(v))) *)
 Definition scalar_pb (s : scalar) : pb :=
   match s with
   | SUndef => PbUndef
@@ -117,55 +117,55 @@ Definition mapM_gen {A B} (f : A -> res B) :=
     | x :: l' => let* y := f x in let* ys := go l' in Ok (y :: ys)
     end.
 
-(* proto/convert.go:160 FromPBData: switch v.Kind.(type); a nil message faults on v.Kind; there is no arm
+(* proto/convert.go:155 FromPBData: switch v.Kind.(type); a nil message faults on v.Kind; there is no arm
    for BinaryValue nor Reference (default: Undef) *)
 Fixpoint from_pb (d : pb) : res value :=
   match d with
-  | PbNil => Fault                                                   (* :161 nil pointer dereference *)
+  | PbNil => Fault                                                   (* :156 nil pointer dereference *)
   | PbBool b => Ok (VBool b)
   | PbFloat f => Ok (VFloat f)
   | PbInt z => Ok (VInt z)
   | PbStr s => Ok (VStr s)
   | PbUndef => Ok VUndef
-  | PbArr l =>                                                       (* :173 *)
+  | PbArr l =>                                                       (* :167 *)
       let* vs := mapM_gen from_pb l in Ok (VArr vs)
-  | PbHash es =>                                                     (* :180 *)
+  | PbHash es =>                                                     (* :174 *)
       let* vs := mapM_gen (fun kx => let* kv := from_pb (fst kx) in let* xv := from_pb (snd kx) in Ok (kv, xv)) es in
       Ok (VHash vs)
-  | PbNoKind | PbBin _ | PbRef _ => Ok VUndef                       (* :187 default *)
+  | PbNoKind | PbBin _ | PbRef _ => Ok VUndef                       (* :181 default *)
   end.
 
-(* proto/convert.go:121 ConsumePBData: the call made on the consumer *)
+(* proto/convert.go:119 ConsumePBData: the call made on the consumer *)
 Fixpoint consume_pb (d : pb) : res ev :=
   match d with
-  | PbNil => Fault                                                   (* :122 nil pointer dereference *)
+  | PbNil => Fault                                                   (* :120 nil pointer dereference *)
   | PbBool b => Ok (EAdd (SBool b))
   | PbFloat f => Ok (EAdd (SFloat f))
   | PbInt z => Ok (EAdd (SInt z))
   | PbStr s => Ok (EAdd (SStr s))
   | PbUndef => Ok (EAdd SUndef)
-  | PbArr l =>                                                       (* :133 *)
+  | PbArr l =>                                                       (* :131 *)
       let* es := mapM_gen consume_pb l in Ok (EArr es)
-  | PbHash es =>                                                     (* :140 key, value, key, value, ... *)
+  | PbHash es =>                                                     (* :138 key, value, key, value, ... *)
       let* ps := mapM_gen (fun kx => let* ke := consume_pb (fst kx) in let* xe := consume_pb (snd kx) in Ok (ke, xe)) es in
       Ok (EHash (flat_map (fun p => [fst p; snd p]) ps))
-  | PbBin b => Ok (EAdd (SBin b))                                    (* :148 *)
-  | PbRef n => Ok (ERef n)                                           (* :150 *)
-  | PbNoKind => Ok (EAdd SUndef)                                     (* :152 default *)
+  | PbBin b => Ok (EAdd (SBin b))                                    (* :146 *)
+  | PbRef n => Ok (ERef n)                                           (* :148 *)
+  | PbNoKind => Ok (EAdd SUndef)                                     (* :150 default *)
   end.
 
 (* ---------------------------------------------------------------------------------------------- *)
-(* proto/convert.go:19 protoConsumer.  The stack of partially built containers; the head of the list is
+(* proto/convert.go:18 protoConsumer.  The stack of partially built containers; the head of the list is
    the top of the Go slice-of-slices (len(pc.stack)-1). *)
 
-(* :82 add *)
+(* :79 add *)
 Definition pc_add (d : pb) (stack : list (list pb)) : res (list (list pb)) :=
   match stack with
   | top :: rest => Ok ((top ++ [d]) :: rest)
   | [] => Fault
   end.
 
-(* :53-57 the pairing loop of AddHash: vs[i/2] = {els[i], els[i+1]}; an odd count indexes out of range *)
+(* :55-59 the pairing loop of AddHash: vs[i/2] = {els[i], els[i+1]}; an odd count indexes out of range *)
 Fixpoint pair_up {A} (els : list A) : res (list (A * A)) :=
   match els with
   | [] => Ok []
@@ -182,15 +182,15 @@ Definition pc_seq (f : list (list pb) -> ev -> res (list (list pb))) :=
 
 Fixpoint pc_ev (stack : list (list pb)) (e : ev) {struct e} : res (list (list pb)) :=
   match e with
-  | EAdd s => pc_add (scalar_pb s) stack                             (* :68 Add *)
-  | ERef n => pc_add (PbRef n) stack                                 (* :72 AddRef *)
-  | EArr l =>                                                        (* :37 AddArray *)
+  | EAdd s => pc_add (scalar_pb s) stack                             (* :63 Add *)
+  | ERef n => pc_add (PbRef n) stack                                 (* :67 AddRef *)
+  | EArr l =>                                                        (* :39 AddArray *)
       let* s1 := pc_seq pc_ev ([] :: stack) l in                     (* push; doer() *)
       match s1 with
       | els :: rest => pc_add (PbArr els) rest                       (* els := pc.stack[top]; pop; add *)
       | [] => Fault
       end
-  | EHash l =>                                                       (* :46 AddHash *)
+  | EHash l =>                                                       (* :48 AddHash *)
       let* s1 := pc_seq pc_ev ([] :: stack) l in
       match s1 with
       | els :: rest => let* ps := pair_up els in pc_add (PbHash ps) rest
@@ -198,7 +198,7 @@ Fixpoint pc_ev (stack : list (list pb)) (e : ev) {struct e} : res (list (list pb
       end
   end.
 
-(* :76 Value(): bs := pc.stack[0]; first element or nil *)
+(* :71 Value(): bs := pc.stack[0]; first element or nil *)
 Definition pc_value (stack : list (list pb)) : res pb :=
   match stack with
   | [bs] => match bs with d :: _ => Ok d | [] => Ok PbNil end
@@ -212,7 +212,7 @@ Definition pc_run (e : ev) : res pb :=
 (* ---------------------------------------------------------------------------------------------- *)
 (* types/basiccollector.go: BasicCollector.  `values` holds every value added so far, by position (what
    AddRef refers to); a container is entered there when it is opened (the Go code stores the pointer to the
-   array/hash under construction, :26, :39) — here `None` until it is complete.  A reference to a container
+   array/hash under construction, :26, :38) — here `None` until it is complete.  A reference to a container
    that is still open would make a cyclic value: `Err` in the model (never produced for Data, which is
    acyclic). *)
 
@@ -240,14 +240,14 @@ Definition c_seq (f : cstate -> ev -> res cstate) :=
 
 Fixpoint c_ev (c : cstate) (e : ev) {struct e} : res cstate :=
   match e with
-  | EAdd s =>                                                        (* :58 Add *)
+  | EAdd s =>                                                        (* :53 Add *)
       let v := match s with
                | SUndef => VUndef | SBool b => VBool b | SInt z => VInt z | SFloat f => VFloat f
                | SStr x => VStr x | SBin b => VBin b | SOther => VOther
                end in
       let* st := c_push v (cstack c) in
       Ok (mkC (cvalues c ++ [Some v]) st)
-  | ERef n =>                                                        (* :64 AddRef: hm.values[ref] *)
+  | ERef n =>                                                        (* :59 AddRef: hm.values[ref] *)
       if (n <? 0) || (Z.of_nat (length (cvalues c)) <=? n) then Fault
       else match nth (Z.to_nat n) (cvalues c) None with
            | Some v => let* st := c_push v (cstack c) in Ok (mkC (cvalues c) st)
@@ -263,12 +263,12 @@ Fixpoint c_ev (c : cstate) (e : ev) {struct e} : res cstate :=
           Ok (mkC (set_nth p (Some v) (cvalues c1)) st)
       | [] => Fault
       end
-  | EHash l =>                                                       (* :37 AddHash *)
+  | EHash l =>                                                       (* :36 AddHash *)
       let p := length (cvalues c) in
       let* c1 := c_seq c_ev (mkC (cvalues c ++ [None]) ([] :: cstack c)) l in
       match cstack c1 with
       | els :: rest =>
-          let* ps := pair_up els in                                  (* :49 st[i], st[i+1] *)
+          let* ps := pair_up els in                                  (* :47 st[i], st[i+1] *)
           let v := VHash ps in
           let* st := c_push v rest in
           Ok (mkC (set_nth p (Some v) (cvalues c1)) st)
@@ -276,7 +276,7 @@ Fixpoint c_ev (c : cstate) (e : ev) {struct e} : res cstate :=
       end
   end.
 
-(* NewCollector, one top-level call, Value() = hm.stack[0][0] (:95) *)
+(* NewCollector, one top-level call, Value() = hm.stack[0][0] (:90) *)
 Definition collect (e : ev) : res value :=
   let* c := c_ev (mkC [] [[]]) e in
   match cstack c with
@@ -364,3 +364,17 @@ Fixpoint value_of_ev (e : ev) : value :=
   | EArr l => VArr (map value_of_ev l)
   | EHash l => VHash (pairs (map value_of_ev l))
   end.
+
+(* what the JSON transport can carry of a value (cf. json_image): a string as valid UTF-8, a Binary or a foreign
+   value as undef *)
+Fixpoint vimage (v : value) : value :=
+  match v with
+  | VStr s => VStr (utf8_coerce s)
+  | VBin _ | VOther => VUndef
+  | VArr l => VArr (map vimage l)
+  | VHash es => VHash (map (fun kv => (vimage (fst kv), vimage (snd kv))) es)
+  | _ => v
+  end.
+
+Definition res_map {A B} (f : A -> B) (r : res A) : res B :=
+  match r with Ok a => Ok (f a) | Err => Err | Fault => Fault | OutOfFuel => OutOfFuel end.
